@@ -289,6 +289,7 @@ func propCLI(c SimCase) pbt.Outcome {
 				{"periodic-set-ignored", semantics{NoPeriodicSet: true}},
 				{"event-get-ignored", semantics{NoEventGet: true}},
 				{"onexit-not-fired-at-budget-end", semantics{NoExitAtEnd: true}},
+				{"periodic-set-steals-valid", semantics{NoPeriodicSet: true, StealsValid: true}},
 			} {
 				if judgeCLI(cli, predict(c.M, bm, active, c.Ticks, c.StopOn, alt.sem)) == "" {
 					sig = alt.sig
